@@ -332,6 +332,13 @@ func (e *enc) havocLoc(m Expr, env *Env) {
 		}
 	}()
 	switch x := m.(type) {
+	case *EStr:
+		name := e.stateVarByName(x.V)
+		if name == "" {
+			e.trFail("unknown state variable %q", x.V)
+		}
+		e.havoc(name)
+		return
 	case *EIdent:
 		if g, ok := e.v.ct.Ghosts[x.Name]; ok {
 			e.regGhost(g)
@@ -395,6 +402,11 @@ func (e *enc) havocLoc(m Expr, env *Env) {
 		}
 		e.trFail("unknown location form %s", x.Fn)
 	case *EField:
+		if g, ok := e.v.ct.Ghosts[x.String()]; ok {
+			e.regGhost(g)
+			e.havoc(g.Name)
+			return
+		}
 		v := e.tr(x.X, env)
 		p, ok := v.GT.Underlying().(*types.Pointer)
 		if !ok {
@@ -513,6 +525,10 @@ func (e *enc) frameCheck(x *ssa.Return) {
 	partial := map[string][]Expr{}
 	for _, m := range e.fc.Modifies {
 		switch mm := m.(type) {
+		case *EStr:
+			if n := e.stateVarByName(mm.V); n != "" {
+				allowed[n] = true
+			}
 		case *EIdent:
 			allowed[mm.Name] = true
 			for _, p := range e.v.pkgs {
@@ -528,7 +544,11 @@ func (e *enc) frameCheck(x *ssa.Return) {
 				partial["?"+mm.String()] = append(partial["?"+mm.String()], m)
 			}
 		case *EField:
-			partial["?"+mm.String()] = append(partial["?"+mm.String()], m)
+			if _, ok := e.v.ct.Ghosts[mm.String()]; ok {
+				allowed[mm.String()] = true
+			} else {
+				partial["?"+mm.String()] = append(partial["?"+mm.String()], m)
+			}
 		}
 	}
 	env := &Env{vars: e.params, cur: e.initSt, old: e.initSt, e: e}
@@ -618,6 +638,26 @@ func (e *enc) frameCheck(x *ssa.Return) {
 		}
 		e.oblige("frame", fmt.Sprintf("%s @ret%d", n, e.retOrd), e.fc.frameProps(), "modifies clause: "+n+" unchanged outside the listed locations", goal, x.Pos())
 	}
+}
+
+// stateVarByName resolves "H.<type>.<field>" given with the Go type name, e.g. "H.container/list.Element.Value".
+func (e *enc) stateVarByName(n string) string {
+	if _, ok := e.sorts[n]; ok {
+		return n
+	}
+	if strings.HasPrefix(n, "H.") {
+		rest := n[2:]
+		i := strings.LastIndex(rest, ".")
+		if i > 0 {
+			t := e.v.lookupType(rest[:i])
+			if t != nil {
+				if idx := e.te.FieldIndex(t, rest[i+1:]); idx >= 0 {
+					return e.heapName(t, idx)
+				}
+			}
+		}
+	}
+	return ""
 }
 
 func (fc *FuncContract) frameProps() []string {
